@@ -11,14 +11,24 @@
      iterate_children, __len__, first_child, last_child, __getitem__ (int incl. negative and out of range, slices),
      index (exact value for every D; = the abstract index for D = no filter), parent,
      fetch_following_sibling, iterate_following_siblings, fetch_preceding_sibling, iterate_preceding_siblings,
-     iterate_descendants (explicit-stack loop = strict pre-order), traverse_df_ltr_ttb;
+     iterate_descendants (explicit-stack loop = strict pre-order), traverse_df_ltr_ttb,
+     iterate_ancestors (= parent chain, restricted to F), depth (= its length),
+     iterate_preceding (= all nodes before, nearest first, restricted to F; independent of D),
+     iterate_following (= all nodes after restricted to D and F) under the decidable guard `up_closed_b D t`
+       (a node the ambient filter hides has only hidden descendants: holds for no filter, the library default
+       "tag or text", "tags only"); without the guard the statement is FALSE for the code as it is (C05_following_refuted),
+     the partition: reversed preceding ++ [n] ++ following = all objects of the tree in document order,
+     last_descendant (= last visible descendant, same guard),
+     traverse_bf_ltr_ttb (any passed filter) and traverse_df_ltr_btt, run without ambient filter, = level order / post-order;
+       the three orders are permutations of the subtree's nodes,
+     full_text (= content of the D-visible text descendants in document order; the node's own content for a text node);
      and on the plain tree: child exactly once at its index, parent <-> child, inverse siblings, descendants = pre-order
-     of the children relation, preceding ++ [n] ++ following = document order (partition, pairwise disjoint).
+     of the children relation, ancestors = parent chain, preceding ++ [n] ++ following = document order (pairwise disjoint).
    NOT covered by theorem (modelled in CNav.v and checked by correspondence + direct search on every run only):
      see the list at the end of this file. *)
-From Coq Require Import List NArith ZArith Bool.
+From Coq Require Import List NArith ZArith Bool Permutation.
 From Delb.Base Require Import PyStr.
-From Delb.Tree Require Import ATree ITree ANav ANavFacts.
+From Delb.Tree Require Import ATree ITree ANav ANavFacts ANavOrderFacts.
 From Delb.Conc Require Import CTree CNav CHeapFacts CWalkFacts CNavFacts.
 Import ListNotations.
 
@@ -79,6 +89,93 @@ Theorem C05_index_filtered : forall c inh, el_ok c = true -> NoDup (cel_ids c) -
 Proof. exact c_index_abs. Qed.
 Print Assumptions C05_index_filtered.
 
+(* ancestors are the parent chain, depth is its length; neither consults a filter other than the passed one *)
+Theorem C05_ancestors : forall c inh, el_ok c = true -> NoDup (cel_ids c) ->
+  forall D F n, In n (ids (abs_el inh c)) ->
+  c_iterate_ancestors c D F n = Ok (filter F (a_ancestors (abs_el inh c) n)).
+Proof. exact c_ancestors_abs. Qed.
+Print Assumptions C05_ancestors.
+Theorem C05_depth : forall c inh, el_ok c = true -> NoDup (cel_ids c) ->
+  forall D n, In n (ids (abs_el inh c)) -> is_ktag (ckind_of c) = true ->
+  c_depth c D n = Ok (a_depth (abs_el inh c) n).
+Proof. exact c_depth_abs. Qed.
+Print Assumptions C05_depth.
+(* full statement of C05_depth (no hypothesis on the root): forall D n, c_depth c D n = Ok (a_depth (abs_el inh c) n).
+   False for the code as it is: the depth of a parentless comment / PI node raises AttributeError (finding
+   C05-depth-parentless-childless); C05_depth above is the theorem under the decidable guard "the root is a tag node". *)
+Theorem C05_depth_refuted : exists c n,
+  el_ok c = true /\ nodupb (cel_ids c) = true /\ In n (ids (abs_el [] c)) /\ a_depth (abs_el [] c) n = 0%nat /\
+  c_depth c ftrue n = Crash AttributeError.
+Proof. exact depth_parentless_refuted. Qed.
+Print Assumptions C05_depth_refuted.
+Theorem C05_ancestors_are_parent_chain : forall t, NoDup (ids t) -> forall n, In n (ids t) ->
+  a_ancestors t n = match a_parent t n with Some p => p :: a_ancestors t p | None => [] end.
+Proof. exact ancestors_chain. Qed.
+Print Assumptions C05_ancestors_are_parent_chain.
+
+(* document order *)
+Theorem C05_preceding : forall c inh, el_ok c = true -> NoDup (cel_ids c) ->
+  forall D F n, In n (ids (abs_el inh c)) ->
+  c_iterate_preceding c D F n = Ok (filter F (a_preceding (abs_el inh c) n)).
+Proof. exact c_preceding_abs. Qed.
+Print Assumptions C05_preceding.
+Theorem C05_following_partial : forall c inh, el_ok c = true -> NoDup (cel_ids c) ->
+  forall D F n, up_closed_b D (abs_el inh c) = true -> In n (ids (abs_el inh c)) ->
+  c_iterate_following c D F n = Ok (filter (fand D F) (a_following (abs_el inh c) n)).
+Proof. exact c_following_abs. Qed.
+Print Assumptions C05_following_partial.
+(* full statement (no guard):  forall D F n, c_iterate_following c D F n = Ok (filter (fand D F) (a_following (abs_el inh c) n)).
+   It does not hold for the code as it is: under an ambient filter that hides an element with visible descendants
+   (e.g. "text nodes only") `_iterate_following` steps over the element's subtree, because it descends through
+   `first_child`, which applies the ambient filter.  Witness: <r><x>c</x></r>, ambient filter = {the text node}. *)
+Theorem C05_following_refuted : exists c D n,
+  el_ok c = true /\ nodupb (cel_ids c) = true /\ In n (ids (abs_el [] c)) /\
+  c_iterate_following c D ftrue n <> Ok (filter (fand D ftrue) (a_following (abs_el [] c) n)).
+Proof. exact following_unguarded_refuted. Qed.
+Print Assumptions C05_following_refuted.
+(* the two walks around a node return the whole tree: nodes before + the node + nodes after, in document order *)
+Theorem C05_partition : forall c inh, el_ok c = true -> NoDup (cel_ids c) ->
+  forall n, In n (ids (abs_el inh c)) ->
+  exists p f, c_iterate_preceding c ftrue ftrue n = Ok p /\ c_iterate_following c ftrue ftrue n = Ok f
+              /\ rev p ++ n :: f = cel_ids c.
+Proof. exact c_partition. Qed.
+Print Assumptions C05_partition.
+
+(* last_descendant: the last of the visible descendants, under the same guard as the following axis *)
+Theorem C05_last_descendant_partial : forall c inh, el_ok c = true -> NoDup (cel_ids c) ->
+  forall D n, up_closed_b D (abs_el inh c) = true -> In n (ids (abs_el inh c)) ->
+  c_last_descendant c D n = Ok (last_error (filter D (a_descendants (abs_el inh c) n))).
+Proof. exact c_last_descendant_abs. Qed.
+Print Assumptions C05_last_descendant_partial.
+Theorem C05_last_descendant : forall c inh, el_ok c = true -> NoDup (cel_ids c) ->
+  forall n, In n (ids (abs_el inh c)) -> c_last_descendant c ftrue n = Ok (a_last_descendant (abs_el inh c) n).
+Proof. exact c_last_descendant_unfiltered. Qed.
+Print Assumptions C05_last_descendant.
+
+(* the contributed traversers (run without filters) enumerate the same node set in their documented orders:
+   breadth-first level by level, depth-first bottom-to-top = post-order, depth-first top-to-bottom = pre-order *)
+Theorem C05_traverse_bf : forall c inh, el_ok c = true -> NoDup (cel_ids c) ->
+  forall F n, In n (ids (abs_el inh c)) -> c_traverse_bf c ftrue F n = Ok (filter F (a_bf_ttb (abs_el inh c) n)).
+Proof. exact c_traverse_bf_abs. Qed.
+Print Assumptions C05_traverse_bf.
+Theorem C05_traverse_df_btt : forall c inh, el_ok c = true -> NoDup (cel_ids c) ->
+  forall n, In n (ids (abs_el inh c)) -> c_traverse_df_btt c ftrue ftrue n = Ok (a_df_btt (abs_el inh c) n).
+Proof. exact c_traverse_df_btt_abs. Qed.
+Print Assumptions C05_traverse_df_btt.
+Theorem C05_traversers_same_nodes : forall t, NoDup (ids t) -> forall n, In n (ids t) ->
+  Permutation (a_df_ttb t n) (a_bf_ttb t n) /\ Permutation (a_df_btt t n) (a_df_ttb t n)
+  /\ a_df_ttb t n = n :: a_descendants t n.
+Proof. exact traversers_same_nodes. Qed.
+Print Assumptions C05_traversers_same_nodes.
+
+(* full_text *)
+Theorem C05_full_text : forall c inh, el_ok c = true -> NoDup (cel_ids c) ->
+  forall D n, In n (ids (abs_el inh c)) ->
+  c_full_text c D n = Ok (if a_is_text (abs_el inh c) n then a_text (abs_el inh c) n
+                          else a_text_concat (abs_el inh c) (filter D (a_descendants (abs_el inh c) n))).
+Proof. exact c_full_text_abs. Qed.
+Print Assumptions C05_full_text.
+
 (* the relations of the one tree agree with each other (the statement of the property, on the plain tree) *)
 Theorem C05_consistency : forall t, NoDup (ids t) -> forall n, In n (ids t) ->
   (forall p, a_parent t n = Some p ->
@@ -117,16 +214,6 @@ Proof. vm_compute. repeat split; reflexivity. Qed.
 (* NOT covered by theorem; the model (Conc/CNav.v) of each is tied to the code by the correspondence check and the
    relation is searched directly on the implementation by harness/props/c05.py on every run.  Target statements:
 
-   Lemma c_ancestors_abs : c_iterate_ancestors c D F n = Ok (filter F (a_ancestors (abs_el inh c) n)).
-   Lemma c_depth_abs     : c_depth c D n = Ok (a_depth (abs_el inh c) n).
-   Lemma ancestors_chain : a_ancestors t n = match a_parent t n with Some p => p :: a_ancestors t p | None => [] end.
-   Lemma c_last_descendant_abs : c_last_descendant c ftrue n = Ok (a_last_descendant (abs_el inh c) n).
-   Lemma c_following_abs : inner_ok D t -> c_iterate_following c D F n = Ok (filter (fand D F) (a_following t n)).
-   Lemma c_preceding_abs : inner_ok D t -> c_iterate_preceding c D F n = Ok (filter (fand D F) (a_preceding t n)).
-        (inner_ok D t: D accepts every node that has children.  Without it both walks prune at hidden nodes:
-         `_iterate_following` descends through `first_child`, `_iterate_preceding` runs under the caller's ambient
-         filter because `@altered_default_filters()` on a generator function has no effect while it is iterated.)
-   Lemma c_full_text_abs : c_full_text c D n = Ok (text of the D-visible descendants in document order)
-        (proved at the level of the walks: CWalkFacts.full_text_spec; not yet instantiated for the heap).
-   Lemma c_traverse_bf_abs / c_traverse_df_btt_abs : = bf_ids / post_ids of the subtree (no filter passed).
-   Lemma c_sort_abs : c_sort c ftrue l = Ok (a_doc_sort t l)      (tag nodes only). *)
+   The traversers under an ambient filter or (df_btt) with passed filters: they prune at hidden nodes and always yield
+   the given root; modelled and compared, no theorem.
+   Lemma c_sort_abs : (all of l are tag nodes of the tree) -> c_sort c ftrue l = Ok (a_doc_sort (abs_el inh c) l). *)
